@@ -7,9 +7,9 @@ from fractions import Fraction
 import numpy as np
 import z3
 
-from pysym import repo_module, uf
+from pysym import probes, repo_module, uf
 from pysym.core import And, Implies, Or, SBool, SReal
-from pysym.runner import Harness, model_floats
+from pysym.runner import ConcreteViolation, Harness, model_floats
 
 PROPERTY = 'C13'
 PL = 'pyphysim.channels.pathloss'
@@ -33,7 +33,13 @@ EXPLANATION = (
     'sector antenna gain even, maximal at 0 and floored.  A sat answer is '
     'replayed on the unpatched public API with floats (model point first, then '
     'a bounded witness search over parameter/distance grids) against oracles '
-    'written from the documented formulas.')
+    'written from the documented formulas.  The same laws are run on 0-d, '
+    '2x2 and 2x3 distance matrices with entries below the clamp distance. '
+    'What the exact-real model cannot see (dtype, container, memory layout, '
+    'aliasing of the caller\'s array) is covered by concrete differential '
+    'probes of the four public queries and of get_antenna_gain on '
+    'representation variants of sampled inputs; a probe failure is reported '
+    'as a reproduced violation (key ...:data-representation:...).')
 ASSUMPTIONS = [
     'floats are modelled as exact reals (rounding outside the claim)',
     'path-loss exponent n > 0, carrier frequency > 0, distance > 0',
@@ -505,6 +511,407 @@ def _replay_laws(mdl, cfg, name, model, site=None, states=None):
 
 
 # ---------------------------------------------------------------------------
+# N-dimensional distance arrays (0-d, 2x2, 2x3, ...): users x base stations
+def _nw_at(cfg, idx, shp):
+    nw = cfg.get('nw')
+    if isinstance(nw, list):
+        return int(np.broadcast_to(np.array(nw), shp)[idx])
+    return nw
+
+
+def _cfg_at(cfg, idx, shp):
+    return dict(cfg, nw=_nw_at(cfg, idx, shp)) if 'nw' in cfg else cfg
+
+
+def _sym_laws_nd(ctx, m, mdl, cfg, pre=''):
+    """the laws on one distance array of shape cfg['dims']; the entries listed
+    in cfg['tiny'] are assumed to be below the clamp distance (negative
+    deterministic loss), all others at or above it (0-d: both, by forking)"""
+    policy = cfg['policy']
+    shp = tuple(cfg['dims'])
+    tiny = {tuple(t) for t in cfg.get('tiny', [])}
+    m.handle_small_distances_bool = policy
+    oh = cfg['model'] == 'oh'
+    D = np.empty(shp, dtype=object)
+    ref, ds = {}, {}
+    for idx in np.ndindex(*shp):
+        name = 'd' + ''.join(str(i) for i in idx)
+        if idx in tiny:
+            d = ctx.real(name, lo=Fraction(1, 10**12), hi=1)
+        elif oh and shp:
+            # keeps the (irrelevant) validity-range warning from forking
+            d = ctx.real(name, lo=1, hi=20)
+        else:
+            d = ctx.real(name, lo=DLO, hi=DHI)
+        D[idx] = d
+        ds[idx] = d
+        r = R(m._calc_deterministic_path_loss_dB(
+            d, **mdl.kargs(_cfg_at(cfg, idx, shp))))
+        ref[idx] = r
+        if shp:
+            ctx.assume(r < 0 if idx in tiny else r >= 0,
+                       'entries %s below the clamp distance' % sorted(tiny))
+    idxs = list(np.ndindex(*shp))
+
+    def unpack(a, what):
+        if not shp:
+            if isinstance(a, np.ndarray):
+                if a.shape != ():
+                    a = None
+                else:
+                    a = a[()]
+            return None if a is None else {(): R(a)}
+        if not isinstance(a, np.ndarray) or a.shape != shp:
+            ctx.record(pre + 'array-shape', 'sat', 'structural',
+                       model=ctx.witness() or {},
+                       detail='%s returned %r' % (what, type(a)))
+            return None
+        return {i: R(a[i]) for i in idxs}
+
+    def same_objects():
+        return all(D[i] is ds[i] for i in idxs)
+
+    try:
+        P = unpack(m.calc_path_loss_dB(D, **mdl.kargs(cfg)),
+                   'calc_path_loss_dB')
+        if P is None:
+            return
+    except RuntimeError as e:
+        if policy or 'too small' not in str(e):
+            raise
+        ctx.prove(pre + 'policy', Or(*[ref[i] < 0 for i in idxs]))
+        return
+    if policy:
+        goal = And(*[Or(And(ref[i] >= 0, P[i] == ref[i]),
+                        And(ref[i] < 0, P[i] == 0)) for i in idxs])
+    else:
+        goal = And(*[And(ref[i] >= 0, P[i] == ref[i]) for i in idxs])
+    ctx.prove(pre + 'policy', goal)
+    reg = [i for i in idxs if i not in tiny]
+    pairs = [(a, b) for a in reg for b in reg if a < b and
+             _nw_at(cfg, a, shp) == _nw_at(cfg, b, shp)][:2]
+    if pairs:
+        ctx.prove(pre + 'mono', And(*[
+            And(Implies(ds[a] <= ds[b], P[a] <= P[b]),
+                Implies(ds[b] <= ds[a], P[b] <= P[a])) for a, b in pairs]))
+    lin = unpack(m.calc_path_loss(D, **mdl.kargs(cfg)), 'calc_path_loss')
+    if lin is None:
+        return
+    ctx.prove(pre + 'linear',
+              And(*[lin[i] == uf.pow10(-P[i] / 10) for i in idxs]))
+    ctx.prove(pre + 'range', And(*[And(lin[i] > 0, lin[i] <= 1)
+                                   for i in idxs]))
+    ctx.record(pre + 'argument-modified',
+               'unsat' if same_objects() else 'sat', 'structural', model={})
+    if not mdl.has_inverse:
+        return
+
+    def arr(vals):
+        a = np.empty(shp, dtype=object)
+        for i in idxs:
+            a[i] = vals[i]
+        return a
+
+    try:
+        w = m.which_distance_dB(arr(P))
+    except NotImplementedError:
+        ctx.record(pre + 'inverse-not-offered', 'unsat', 'structural')
+        return
+    if w is None:
+        ctx.record(pre + 'inverse', 'sat', 'structural',
+                   model=ctx.witness() or {},
+                   detail='which_distance_dB returned None')
+        return
+    w = unpack(w, 'which_distance_dB')
+    if w is None:
+        return
+    ctx.prove(pre + 'inverse', And(*[Implies(ref[i] >= 0, w[i] == ds[i])
+                                     for i in idxs]))
+    wl = unpack(m.which_distance(arr(lin)), 'which_distance')
+    if wl is None:
+        return
+    ctx.prove(pre + 'inverse-linear',
+              And(*[Implies(ref[i] >= 0, wl[i] == ds[i]) for i in idxs]))
+
+
+def _float_laws_nd(mdl, cfg, p, D, build=None, want_inverse=True):
+    """float laws of one distance array D (0-d or N-d float64) on the public
+    API; -> dict law -> detail"""
+    pl = repo_module(PL)
+    bad = {}
+    policy = cfg['policy']
+    D = np.array(D, dtype=float)
+    shp = D.shape
+    idxs = list(np.ndindex(*shp))
+    with warnings.catch_warnings():
+        warnings.simplefilter('ignore')
+        m = build() if build is not None else mdl.flt(cfg, p, pl)
+        m.handle_small_distances_bool = policy
+        det = np.empty(shp, dtype=float)
+        for i in idxs:
+            det[i] = mdl.oracle(_cfg_at(cfg, i, shp), p, float(D[i]))
+        near = bool(np.any(np.abs(det) < 1e-6))
+        D0 = D.copy()
+        kw = mdl.kargs(cfg)
+
+        def norm(a, what):
+            if not shp:
+                a = np.asarray(a, dtype=float)
+                if a.shape != ():
+                    bad['array-shape'] = '%s -> shape %r' % (what, a.shape)
+                    return None
+                return a
+            if not isinstance(a, np.ndarray) or a.shape != shp:
+                bad['array-shape'] = '%s -> %r' % (what, a)
+                return None
+            return np.array(a, dtype=float)
+
+        try:
+            P = norm(m.calc_path_loss_dB(D, **kw), 'calc_path_loss_dB')
+        except RuntimeError as e:
+            if 'too small' not in str(e):
+                bad['exception:RuntimeError'] = repr(e)
+            elif policy:
+                bad['policy'] = 'raised although clamping is configured'
+            elif not near and det.min() >= 0:
+                bad['policy'] = 'raised for non-negative losses %r' % (det, )
+            if not np.array_equal(D, D0):
+                bad['argument-modified'] = 'distances %r became %r' % (D0, D)
+            return bad
+        except Exception as e:
+            bad['exception:' + type(e).__name__] = repr(e)
+            return bad
+        if P is None:
+            return bad
+        if not np.array_equal(D, D0):
+            bad['argument-modified'] = 'distances %r became %r' % (
+                D0.tolist(), D.tolist())
+            D = D0.copy()
+        if not near:
+            if not policy and det.min() < 0:
+                bad['policy'] = 'negative loss %r returned %r' % (
+                    det.tolist(), P.tolist())
+            else:
+                exp = np.maximum(det, 0.0) if policy else det
+                if not np.allclose(P, exp, rtol=1e-8, atol=1e-9):
+                    bad['policy'] = 'loss %r, documented formula with the ' \
+                        'policy %r' % (P.tolist(), exp.tolist())
+        try:
+            lin = norm(m.calc_path_loss(D, **kw), 'calc_path_loss')
+            P2 = norm(m.calc_path_loss_dB(D, **kw), 'calc_path_loss_dB')
+        except Exception as e:
+            bad['exception:' + type(e).__name__] = repr(e)
+            return bad
+        if lin is None or P2 is None:
+            return bad
+        if not np.allclose(P2, P, rtol=1e-12, atol=0):
+            bad['second-call'] = 'same array queried twice: %r then %r' % (
+                P.tolist(), P2.tolist())
+        want = 10.0**(-P / 10.0)
+        if not np.allclose(lin, want, rtol=1e-9, atol=0):
+            bad['linear'] = 'linear %r, 10^(-dB/10) = %r' % (lin.tolist(),
+                                                           want.tolist())
+        if np.any((lin <= 0) & (P < 3000)) or np.any(lin > 1):
+            bad['range'] = 'linear value %r' % (lin.tolist(), )
+        if not (mdl.has_inverse and want_inverse):
+            return bad
+        try:
+            w = m.which_distance_dB(P.copy() if shp else float(P))
+            if w is None:
+                bad['inverse'] = 'returns-None'
+                return bad
+            wl = m.which_distance(lin.copy() if shp else float(lin))
+        except NotImplementedError:
+            return bad
+        except Exception as e:
+            bad['exception:' + type(e).__name__] = repr(e)
+            return bad
+        w, wl = norm(w, 'which_distance_dB'), norm(wl, 'which_distance')
+        if w is None or wl is None:
+            return bad
+        ok = det >= 1e-6
+        if not np.allclose(w[ok], D0[ok], rtol=1e-8, atol=0):
+            bad['inverse'] = 'which_distance_dB(PL(%r)) = %r' % (
+                D0.tolist(), w.tolist())
+        ok2 = ok & (det < 3000)
+        if not np.allclose(wl[ok2], D0[ok2], rtol=1e-8, atol=0):
+            bad['inverse-linear'] = 'which_distance(pl(%r)) = %r' % (
+                D0.tolist(), wl.tolist())
+    return bad
+
+
+def _tiny_distance(mdl, cfg, p):
+    """a power of two below the clamp distance of every wall variant"""
+    nw = cfg.get('nw')
+    nws = sorted(set(np.array(nw).ravel().tolist())) if isinstance(
+        nw, list) else [nw]
+    for k in range(10, 121, 5):
+        t = 2.0**-k
+        if all(mdl.oracle(dict(cfg, nw=w) if 'nw' in cfg else cfg, p, t) < -1
+               for w in nws):
+            return t
+    return None
+
+
+def _nd_distances(mdl, cfg, p, shp, tiny):
+    base = [1.5, 2.5, 7.0, 11.0, 3.0, 17.0, 4.5, 19.0, 1.25, 6.0]
+    D = np.array([base[k % len(base)] for k in range(int(np.prod(shp)))],
+                 dtype=float).reshape(shp)
+    t = _tiny_distance(mdl, cfg, p)
+    if t is not None:
+        if shp:
+            for idx in tiny:
+                D[tuple(idx)] = t
+        elif tiny:
+            D = np.array(t)
+    return D
+
+
+def _replay_laws_nd(mdl, cfg, name, model):
+    m = model_floats(model)
+    shp = tuple(cfg['dims'])
+    law = _law_of(name)
+    if law.startswith('no-exception'):
+        law = 'exception:' + law.split(':', 1)[1]
+    cands = []
+    p0 = _params_from(mdl, m)
+    try:
+        D = np.empty(shp, dtype=float)
+        for idx in np.ndindex(*shp):
+            D[idx] = m['d' + ''.join(str(i) for i in idx)]
+        cands.append((p0, D))
+    except (KeyError, TypeError, ValueError):
+        pass
+    tiny = [tuple(t) for t in cfg.get('tiny', [])]
+    for q in [p0] + mdl.grid(cfg):
+        cands.append((q, _nd_distances(mdl, cfg, q, shp, tiny)))
+        if not shp:
+            cands.append((q, _nd_distances(mdl, cfg, q, shp, [()])))
+    for q, D in cands:
+        bad = _float_laws_nd(mdl, cfg, q, D)
+        if law in bad:
+            cls = ':returns-None' if (law == 'inverse' and bad[law] ==
+                                      'returns-None') else ':%d-D' % len(shp)
+            return dict(reproduced=True,
+                        key='C13/%s/%s%s' % (mdl.cls, law, cls),
+                        detail=dict(params=q, distances=D.tolist(),
+                                    policy=cfg['policy'], nw=cfg.get('nw'),
+                                    failed=bad))
+    return dict(reproduced=False, key=None,
+                detail='law %r holds on the model point and on the witness '
+                'arrays' % (law, ))
+
+
+# ---------------------------------------------------------------------------
+# concrete runs see the real numpy (the facade is injected around concrete()
+# too, and e.g. its log10 has no `out=`): swap the module globals back
+class _RealNumpy:
+    def __enter__(self):
+        import math as _m
+        self.saved = []
+        for name in (PL, CV, AG):
+            d = repo_module(name).__dict__
+            for k, real in (('np', np), ('math', _m)):
+                if k in d and d[k] is not real:
+                    self.saved.append((d, k, d[k]))
+                    d[k] = real
+        return self
+
+    def __exit__(self, *exc):
+        for d, k, old in reversed(self.saved):
+            d[k] = old
+        return False
+
+
+def _raise_concrete(site, bad, detail):
+    law = sorted(bad)[0]
+    cls = ':returns-None' if bad[law] == 'returns-None' else ''
+    raise ConcreteViolation('C13/%s/%s%s' % (site, law, cls),
+                            dict(detail, failed=bad))
+
+
+def _guard(f):
+    """the documented 'distance too small' exception is a value of the call"""
+    def call(*a):
+        with warnings.catch_warnings():
+            warnings.simplefilter('ignore')
+            try:
+                return f(*a)
+            except RuntimeError as e:
+                if 'too small' in str(e):
+                    return 'RuntimeError: distance too small'
+                raise
+    return call
+
+
+def _probe_model(mdl, cfg):
+    """data-representation probes (pysym.probes) of the four public queries
+    of one model object under cfg's policy, on inputs of cfg's shape class;
+    raises ConcreteViolation; -> number of probe batteries run"""
+    pl = repo_module(PL)
+    p = mdl.defaults()
+    with warnings.catch_warnings():
+        warnings.simplefilter('ignore')
+        m = mdl.flt(cfg, p, pl)
+    m.handle_small_distances_bool = cfg['policy']
+    kinds = ['readonly', 'fortran', 'strided', 'int', 'narrow', 'pyscalar']
+    # python lists are documented for the distance of the outdoor log-distance
+    # models only
+    dkinds = kinds + (['list'] if cfg['model'] in ('general', 'freespace',
+                                                    '3gpp1') else [])
+    t = _tiny_distance(mdl, cfg, p) or 2.0**-60
+    nw = cfg.get('nw')
+    last = np.array(nw).shape[-1] if isinstance(nw, list) else 3
+    shape = cfg['shape']
+    if shape == 'scalar':
+        dists = [2.0, 64.0, 0.75, t]
+        losses, lins = [90.0, 60.5], [2.0**-20, 2.0**-33]
+    elif shape in ('array2', 'list2'):
+        ints = [1., 2., 5., 40., 7., 16.][:max(last, 2) if isinstance(
+            nw, list) else 4]
+        frac = [0.5, t, 3.25, t / 4, 9.5, 12.75][:len(ints)]
+        dists = [np.array(ints), np.array(frac)]
+        losses = [np.array([60., 90., 120.]), np.array([70.5, 101.25])]
+        lins = [np.array([2.0**-20, 2.0**-30, 2.0**-40])]
+    else:
+        shp = tuple(cfg['dims'])
+        if not shp:
+            dists = [np.array(2.0), np.array(t), np.array(64.0)]
+            losses, lins = [np.array(90.0)], [np.array(2.0**-30)]
+        else:
+            if isinstance(nw, list):
+                shp = np.broadcast_shapes(shp, np.array(nw).shape)
+            n = int(np.prod(shp))
+            ints = np.array([1., 2., 4., 8., 16., 32., 3., 5., 6.][:n]
+                            ).reshape(shp)
+            frac = np.array([0.5, 3.25, 7.5, 0.25, 9.5, 12.75, 1.5, 2.5,
+                             6.5][:n]).reshape(shp)
+            for idx in cfg.get('tiny', []) or [(shp[0] - 1, 0)]:
+                frac[tuple(idx)] = t
+            dists = [ints, frac]
+            losses = [60. + 10 * np.arange(n, dtype=float).reshape(shp)]
+            lins = [2.0**-(20 + 3 * np.arange(n, dtype=float)).reshape(shp)]
+    kw = mdl.kargs(cfg)
+    k = 0
+    site = 'C13/%s/' % mdl.cls
+    for d in dists:
+        for fn in ('calc_path_loss_dB', 'calc_path_loss'):
+            f = getattr(m, fn)
+            k += probes.require(site + fn, _guard(lambda x: f(x, **kw)), [d],
+                                kinds=tuple(dkinds), rtol=1e-9, atol=1e-12)
+    if mdl.has_inverse is True:
+        for a in losses:
+            k += probes.require(site + 'which_distance_dB',
+                                _guard(m.which_distance_dB), [a],
+                                kinds=tuple(kinds), rtol=1e-9, atol=0)
+        for a in lins:
+            k += probes.require(site + 'which_distance',
+                                _guard(m.which_distance), [a],
+                                kinds=tuple(kinds), rtol=1e-9, atol=0)
+    return k
+
+
+# ---------------------------------------------------------------------------
 class Laws(Harness):
     """every model x small-distance policy x scalar / 2-element array:
     monotone loss, policy, linear value and range, two-sided inverse."""
@@ -528,7 +935,16 @@ class Laws(Harness):
         PL + ':PathLossOkomuraHata._calc_K',
         CV + ':dB2Linear', CV + ':linear2dB')
     bounds = ('d1, d2 symbolic in [1e-3, 1e3] (6 decades), scalars and '
-              '2-element arrays (thorough: also python lists); general: n>0, '
+              '2-element arrays (thorough: also python lists); symbolic 0-d, '
+              '2x2 and 2x3 distance matrices (thorough: 3x2, all/none below '
+              'the clamp distance) with designated entries below the clamp '
+              'distance away from the first row/column, both policies, METIS '
+              'with 2-D / broadcast wall-count arrays; concrete probes '
+              '(pysym.probes): calc_path_loss(_dB), which_distance(_dB) on '
+              'scalar kinds, 0-d, 1-D, 2-D arrays x {read-only, Fortran, '
+              'transposed, strided, int64/int32, float32, list where '
+              'documented}: same value, argument unchanged, no aliasing, '
+              'second call equal; general: n>0, '
               'C any real; free space: n>0, fc>0; METIS PS7: fc>0, walls 0..3 '
               '(thorough ..7, per-element wall arrays); Okumura-Hata: hbs in '
               '[30,200], hms in [1,10], fc in [150,1500], 4 area types; loss '
@@ -538,8 +954,20 @@ class Laws(Harness):
              'literal arguments)', 'warnings.warn silenced')
     assumptions = tuple(ASSUMPTIONS)
     outside = ('shadowing (random term)', 'float rounding',
-               'distances outside [1e-3, 1e3]', 'n <= 0 or fc <= 0',
-               'arrays longer than 2 elements (element-wise code)')
+               'distances outside [1e-3, 1e3] (entries assumed below the '
+               'clamp distance: [1e-12, 1])', 'n <= 0 or fc <= 0',
+               'symbolic arrays larger than 2x3 / 3x2; in the 2-D Okumura-Hata '
+               'units the regular entries are restricted to the documented '
+               '[1,20] km (keeps the range warning from forking)',
+               'representation variants the clean library does not support '
+               'and does not document: python lists as argument of '
+               'which_distance(_dB) (documented float|ndarray; the code '
+               'subtracts a float from it), python lists as distances of '
+               'METIS PS7 (asserts ndarray with wall arrays) and Okumura-Hata '
+               '(compares `d < 1.0`); they are not probed',
+               'dtype / memory layout / aliasing are invisible to the '
+               'exact-real symbolic model: they are covered by the concrete '
+               'differential probes only (sampled inputs, not all inputs)')
 
     def configs(self, tier):
         out = []
@@ -559,6 +987,25 @@ class Laws(Harness):
                             shape='array2'))
             out.append(dict(model='metis', nw=[0, 0], policy=True,
                             shape='array2'))
+        # distance matrices (users x base stations) with entries below the
+        # clamp distance away from the first row/column, and 0-d arrays
+        mcs = [c for c in _model_cfgs(tier)
+               if c.get('nw') in (None, 0, 2)]
+        mcs += [dict(model='metis', nw=[[0, 2], [1, 0]], dims=[2, 2]),
+                dict(model='metis', nw=[0, 1, 3], dims=[2, 3]),
+                dict(model='metis', nw=[[2], [0]], dims=[2, 3])]
+        nds = [([2, 2], [[1, 0]]), ([2, 3], [[0, 1], [1, 2]]),
+               ([2, 3], [[0, 1]]), ([], [])]
+        if tier != 'quick':
+            nds += [([2, 2], []), ([2, 2], [[0, 0], [0, 1], [1, 0], [1, 1]]),
+                    ([3, 2], [[2, 1]])]
+        for mc in mcs:
+            for policy in (False, True):
+                for dims, tiny in nds:
+                    if 'dims' in mc and dims != mc['dims']:
+                        continue
+                    out.append(dict(mc, policy=policy, shape='nd', dims=dims,
+                                    tiny=tiny))
         return out
 
     def sym(self, ctx, cfg):
@@ -566,26 +1013,52 @@ class Laws(Harness):
         pl = repo_module(PL)
         mdl = MODELS[cfg['model']]
         m = mdl.sym(ctx, cfg, pl)
-        _sym_laws(ctx, m, mdl, cfg)
+        if cfg['shape'] == 'nd':
+            _sym_laws_nd(ctx, m, mdl, cfg)
+        else:
+            _sym_laws(ctx, m, mdl, cfg)
 
     def replay(self, cfg, name, model):
+        if cfg['shape'] == 'nd':
+            return _replay_laws_nd(MODELS[cfg['model']], cfg, name, model)
         return _replay_laws(MODELS[cfg['model']], cfg, name, model)
 
     def concrete(self, cfg, rng):
         mdl = MODELS[cfg['model']]
         n = 0
-        for _ in range(12):
-            p = {k: rng.choice(g) if rng.random() < 0.3 else
-                 rng.uniform(min(g), max(g)) for k, _, g in mdl.params}
-            a = 10**rng.uniform(-3, 3)
-            b = 10**rng.uniform(-3, 3)
-            bad = _float_laws(mdl, cfg, p, min(a, b), max(a, b),
-                              rng.uniform(0, 300),
-                              want_inverse=mdl.has_inverse is True)
-            if bad:
-                raise AssertionError('float laws fail: %r %r %r' %
-                                     (cfg, p, bad))
-            n += 1
+        with _RealNumpy():
+            for _ in range(12):
+                p = {k: rng.choice(g) if rng.random() < 0.3 else
+                     rng.uniform(min(g), max(g)) for k, _, g in mdl.params}
+                if cfg['shape'] == 'nd':
+                    shp = tuple(cfg['dims'])
+                    D = np.array([10**rng.uniform(-3, 3) for _ in range(
+                        int(np.prod(shp)))]).reshape(shp)
+                    if cfg['model'] == 'oh':
+                        D = np.clip(D, 1e-3, 1e3)
+                    t = _tiny_distance(mdl, cfg, p)
+                    for idx in cfg.get('tiny', []):
+                        if t is not None:
+                            D[tuple(idx)] = t * rng.uniform(0.1, 1)
+                    bad = _float_laws_nd(mdl, cfg, p, D,
+                                         want_inverse=mdl.has_inverse is True)
+                    det = dict(params=p, distances=D.tolist(), cfg=cfg)
+                    sfx = ':%d-D' % len(shp)
+                else:
+                    a = 10**rng.uniform(-3, 3)
+                    b = 10**rng.uniform(-3, 3)
+                    bad = _float_laws(mdl, cfg, p, min(a, b), max(a, b),
+                                      rng.uniform(0, 300),
+                                      want_inverse=mdl.has_inverse is True)
+                    det = dict(params=p, d=[min(a, b), max(a, b)], cfg=cfg)
+                    sfx = ''
+                if bad:
+                    law = sorted(bad)[0]
+                    raise ConcreteViolation(
+                        'C13/%s/%s%s' % (mdl.cls, law, sfx),
+                        dict(det, failed=bad))
+                n += 1
+            n += _probe_model(mdl, cfg)
         return n
 
 
@@ -895,6 +1368,10 @@ class Setters(Harness):
                             states=[(p, b) for p, b, _ in states])
 
     def concrete(self, cfg, rng):
+        with _RealNumpy():
+            return self._concrete(cfg, rng)
+
+    def _concrete(self, cfg, rng):
         mdl = MODELS[cfg['model']]
         n = 0
         for _ in range(6):
@@ -915,7 +1392,7 @@ class Setters(Harness):
             for law in ('invariant', 'getter', 'setter-range'):
                 r = self.replay(cfg, law, m)
                 if r['reproduced']:
-                    raise AssertionError('setter check fails: %r' % (r, ))
+                    raise ConcreteViolation(r['key'], r['detail'])
             # the laws on the object that went through this history
             p, build, area = self._states(cfg, m)[0]
             a, b = sorted((10**rng.uniform(-3, 3), 10**rng.uniform(-3, 3)))
@@ -924,8 +1401,9 @@ class Setters(Harness):
                               want_inverse=mdl.has_inverse is True,
                               build=build)
             if bad:
-                raise AssertionError('laws fail after the history %r: %r' %
-                                     (build.history, bad))
+                _raise_concrete('%s/setter-%s' % (mdl.cls, cfg['op']), bad,
+                                dict(history=build.history, params=p,
+                                     d=[a, b]))
             n += 1
         return n
 
@@ -1005,11 +1483,13 @@ class Friis(Harness):
 
     def concrete(self, cfg, rng):
         k = 0
-        for _ in range(20):
-            r = self.replay(cfg, 'friis', dict(
-                fc=10**rng.uniform(0, 5), d1=10**rng.uniform(-3, 3)))
-            assert not r['reproduced'], r
-            k += 1
+        with _RealNumpy():
+            for _ in range(20):
+                r = self.replay(cfg, 'friis', dict(
+                    fc=10**rng.uniform(0, 5), d1=10**rng.uniform(-3, 3)))
+                if r['reproduced']:
+                    raise ConcreteViolation(r['key'], r['detail'])
+                k += 1
         return k
 
 
@@ -1023,16 +1503,20 @@ class Antenna(Harness):
     functions = (AG + ':AntGainBS3GPP25996.__init__',
                  AG + ':AntGainBS3GPP25996.get_antenna_gain',
                  CV + ':dB2Linear')
-    bounds = ('3 and 6 sectors; angle symbolic in [-180, 180] degrees, scalar '
-              'and 2-element array; floor compared with relative slack 1e-9 '
+    bounds = ('3 and 6 sectors; angle symbolic in [-180, 180] degrees, scalar, '
+              '0-d, 2-element and 2x2 arrays; concrete data-representation '
+              'probes of get_antenna_gain (scalar kinds, 0-d, 1-D, 2-D; '
+              'read-only, Fortran, strided, integer, float32); floor compared with relative slack 1e-9 '
               '(literal 10^(-2.3) is bracketed, not exact)')
     stubs = ('np.minimum -> forks on the comparison', '10**x -> UF Pow10')
     assumptions = ('floats are modelled as exact reals', )
-    outside = ('omnidirectional antenna (constant)', 'float rounding')
+    outside = ('omnidirectional antenna (constant)', 'float rounding',
+               'python lists as angles (documented float|ndarray; the code '
+               'divides the argument by a float): not probed')
 
     def configs(self, tier):
         return [dict(sectors=s, shape=sh) for s in (3, 6)
-                for sh in ('scalar', 'array2')]
+                for sh in ('scalar', 'array2', '2x2', '0d')]
 
     def sym(self, ctx, cfg):
         ag = repo_module(AG)
@@ -1042,6 +1526,26 @@ class Antenna(Harness):
         if cfg['shape'] == 'scalar':
             g = [R(m.get_antenna_gain(t)) for t in (t1, t2)]
             gm = [R(m.get_antenna_gain(-t)) for t in (t1, t2)]
+        elif cfg['shape'] == '0d':
+            def g0(t):
+                v = m.get_antenna_gain(np.array(t, dtype=object))
+                return R(v[()] if isinstance(v, np.ndarray) else v)
+            g = [g0(t1), g0(t2)]
+            gm = [g0(-t1), g0(-t2)]
+            ctx.prove('array=scalar', g[0] == R(m.get_antenna_gain(t1)))
+        elif cfg['shape'] == '2x2':
+            A = np.array([[t1, t2], [-t1, -t2]], dtype=object)
+            a = m.get_antenna_gain(A)
+            if not (isinstance(a, np.ndarray) and a.shape == (2, 2)):
+                ctx.record('array-shape', 'sat', 'structural', model={})
+                return
+            g = [R(a[0, 0]), R(a[0, 1])]
+            gm = [R(a[1, 0]), R(a[1, 1])]
+            ctx.prove('array=scalar', And(
+                g[0] == R(m.get_antenna_gain(t1)),
+                gm[1] == R(m.get_antenna_gain(-t2))))
+            ctx.record('argument-modified', 'unsat' if A[0, 0] is t1 and
+                       A[0, 1] is t2 else 'sat', 'structural', model={})
         else:
             a = m.get_antenna_gain(np.array([t1, t2], dtype=object))
             b = m.get_antenna_gain(np.array([-t1, -t2], dtype=object))
@@ -1075,6 +1579,23 @@ class Antenna(Harness):
         floor = G * 10**(-am / 10)
         if shape == 'scalar':
             g, gm = m.get_antenna_gain(t), m.get_antenna_gain(-t)
+        elif shape == '0d':
+            g = float(np.asarray(m.get_antenna_gain(np.array(t))))
+            gm = float(np.asarray(m.get_antenna_gain(np.array(-t))))
+            if not _close(g, m.get_antenna_gain(t), rel=1e-12):
+                return {'array=scalar': (g, m.get_antenna_gain(t))}
+        elif shape == '2x2':
+            A = np.array([[t, 0.3 * t], [-t, -0.3 * t]])
+            A0 = A.copy()
+            a = m.get_antenna_gain(A)
+            if not (isinstance(a, np.ndarray) and a.shape == (2, 2)):
+                return {'array-shape': repr(a)}
+            if not np.array_equal(A, A0):
+                return {'argument-modified': (A0.tolist(), A.tolist())}
+            g, gm = float(a[0, 0]), float(a[1, 0])
+            if not _close(g, m.get_antenna_gain(t), rel=1e-12) or not _close(
+                    float(a[1, 1]), m.get_antenna_gain(-0.3 * t), rel=1e-12):
+                return {'array=scalar': (a.tolist(), m.get_antenna_gain(t))}
         else:
             a = m.get_antenna_gain(np.array([t, 0.3 * t]))
             b = m.get_antenna_gain(np.array([-t, -0.3 * t]))
@@ -1119,11 +1640,36 @@ class Antenna(Harness):
                     detail='%s holds on replay' % law)
 
     def concrete(self, cfg, rng):
-        for _ in range(40):
-            bad = self._float_bad(cfg['sectors'], cfg['shape'],
-                                  rng.uniform(-180, 180))
-            assert not bad, bad
-        return 40
+        n = 0
+        with _RealNumpy():
+            for _ in range(40):
+                t = rng.uniform(-180, 180)
+                bad = self._float_bad(cfg['sectors'], cfg['shape'], t)
+                if bad:
+                    raise ConcreteViolation(
+                        'C13/AntGainBS3GPP25996/' + sorted(bad)[0],
+                        dict(sectors=cfg['sectors'], angle=t,
+                             failed={k: repr(v) for k, v in bad.items()}))
+                n += 1
+            # data-representation probes (lists are not a documented angle
+            # type: `angle / theta_3db`)
+            m = repo_module(AG).AntGainBS3GPP25996(cfg['sectors'])
+            kinds = ('readonly', 'fortran', 'strided', 'int', 'narrow',
+                     'pyscalar')
+            args = {
+                'scalar': [0.0, 35.0, -180.0, 12.5, -70.0],
+                '0d': [np.array(35.0), np.array(-12.5), np.array(180.0)],
+                'array2': [np.array([-180., -35., 0., 10., 70.]),
+                           np.array([-100.5, 0.25, 33.75, 179.5])],
+                '2x2': [np.array([[-180., -35., 0.], [10., 70., 180.]]),
+                        np.array([[-100.5, 0.25], [33.75, 179.5]])],
+            }[cfg['shape']]
+            for a in args:
+                n += probes.require(
+                    'C13/AntGainBS3GPP25996/get_antenna_gain',
+                    m.get_antenna_gain, [a], kinds=kinds, rtol=1e-9,
+                    atol=0)
+        return n
 
 
 HARNESSES = [Laws(), Setters(), Friis(), Antenna()]
@@ -1143,8 +1689,10 @@ MANIFEST = dict(
     'antenna for all angles in [-180,180].',
     note='floats as exact reals; log10 and 10**x as uninterpreted functions '
     'with sound axioms (a proof is valid for the real functions; a sat is '
-    'decided by replay + bounded witness search); n>0, fc>0 assumed; arrays '
-    'of 2; shadowing excluded',
+    'decided by replay + bounded witness search); n>0, fc>0 assumed; 1-D '
+    'arrays of 2, 2-D arrays up to 2x3; dtype/layout/aliasing only through '
+    'concrete probes on sampled inputs; shadowing excluded',
     technique='symbolic execution of real code on numpy object arrays + z3 '
     '(NRA + UF with instantiated axioms) per path; inductive step for setter '
-    'histories; counterexample replay on the public API')
+    'histories; counterexample replay on the public API; concrete '
+    'data-representation probes (pysym.probes)')
